@@ -17,6 +17,9 @@ import (
 // relative round-off error in big.Float precision numbers
 var dpSafeEpsilon = 1e-15
 
+// exactPrec is a big.Float precision at which the determinant of float64 differences is exact.
+const exactPrec = 2 * (1023 + 1074 + 2)
+
 // OrientationIndex returns the index of the direction of point relative
 // to a vector specified by vectorOrigin-vectorEnd
 //
@@ -36,6 +39,15 @@ func OrientationIndex(vectorOrigin, vectorEnd, point geom.Coord) orientation.Typ
 	}
 
 	var dx1, dy1, dx2, dy2 big.Float
+
+	// A zero-value big.Float takes the 53-bit precision of its first float64 operand, which makes
+	// the arithmetic below round exactly like the float64 filter above. The exact difference of two
+	// float64 values needs up to 2098 bits of mantissa and the determinant twice that, so use a
+	// precision at which none of these operations rounds.
+	dx1.SetPrec(exactPrec)
+	dy1.SetPrec(exactPrec)
+	dx2.SetPrec(exactPrec)
+	dy2.SetPrec(exactPrec)
 
 	// normalize coordinates
 	dx1.SetFloat64(vectorEnd[0]).Add(&dx1, big.NewFloat(-vectorOrigin[0]))
